@@ -1094,8 +1094,15 @@ def check_state_limit_writers(ctx, rep, pid):
     is_cs = lambda e: is_field(e, 'current_state', 'MachineRuntime')
     is_chg = lambda e: contains(e, lambda y: is_call(y, '::update_counter')) and not is_cs(e)
     n_res = 0
-    for (b, k, v) in ret_defs(fa):
-        if not (isinstance(v, tuple) and v and v[0] == 'agg' and v[1].endswith('StateChange')) or not uc or not any(fa.cfg.dominates(u, b) for u in uc):
+    results = []
+    for b in sorted(fa.cfg.reach):
+        for k, st0 in enumerate(fa.blocks[b]['s']):
+            if 'p' in st0 and st0['rv']['k'] == 'agg' and not st0['p']['pr']:
+                v = fa.rvalue(st0['rv'], (b, k))
+                if isinstance(v, tuple) and v and v[0] == 'agg' and v[1].endswith('StateChange'):
+                    results.append((b, k, v))
+    for (b, k, v) in results:
+        if not uc or not any(fa.cfg.dominates(u, b) for u in uc):
             continue
         n_res += 1
         sts = pfh.at(b, k) if k is not None else pfh.at_entry(b)
